@@ -12,6 +12,7 @@
 #include "c09_stress.h"
 #include "c09_abort.h"
 #include "c09_fault.h"
+#include <csignal>
 
 using namespace vrt;
 using namespace c09;
@@ -52,7 +53,17 @@ static void on_hang(const HangInfo& hi) {
     R.finish_and_exit(3);
 }
 
+// A crash (oneTBB assertion, SIGSEGV) is a verdict of the driver; print which scenario was running so that it can be replayed.
+static void on_crash(int sig) {
+    static char buf[1400];
+    const std::string& sc = hang_ctx().scenario;          // best effort: no lock in a signal handler
+    int n = snprintf(buf, sizeof buf, "\n[c09] signal %d in class %c phase %d scenario %.1200s\n", sig, (char)hang_ctx().cls.load(), hang_ctx().phase.load(), sc.c_str());
+    if (n > 0) { ssize_t w = write(2, buf, (size_t)std::min<int>(n, (int)sizeof buf - 1)); (void)w; }
+    signal(sig, SIG_DFL); raise(sig);
+}
+
 int main(int argc, char** argv) {
+    signal(SIGABRT, on_crash); signal(SIGSEGV, on_crash); signal(SIGBUS, on_crash);
     Args a = standard_init(argc, argv, "c09");
     Result& R = result();
     long cases = a.num("cases", 2000);
